@@ -10,3 +10,5 @@ ASAN_FILL_85 = {'ASAN_OPTIONS': vf.ASAN_ENV['ASAN_OPTIONS'].replace('malloc_fill
 
 def build(name, flavor='asan'):
     return vf.build_harness(name, flavor, [name + '.c'], wraps=WRAPS)
+
+MEMCHECK = ['valgrind', '-q', '--error-exitcode=99', '--track-origins=yes', '--num-callers=12']
